@@ -68,7 +68,14 @@ def make_tree():
         'public/sub/home.htm': 'home', 'public/noext': 'raw',
         'secret.txt': 'TOP SECRET', 'single.html': '<p>single</p>',
         'public/name.txt.d/x.png': 'png',
+        # siblings of the mapped root whose names START with its name
+        'public-private/secret.txt': 'SIBLING SECRET',
+        'public-private/index.html': 'SIBLING INDEX',
+        'public.bak/index.html': 'BACKUP INDEX',
+        'publications.txt': 'SIBLING FILE',
     }
+    os.makedirs(os.path.join(root, 'public-private'))
+    os.makedirs(os.path.join(root, 'public.bak'))
     for rel, content in files.items():
         with open(os.path.join(root, rel), 'w') as f:
             f.write(content)
@@ -325,9 +332,10 @@ def check_path(rec, root, gateway, mname, mapping, endpoint, wrapped, path,
 
 
 SEGS = ['', '.', '..', '%2e%2e', 'static', 'sub', 'a.txt', 'index.html',
-        'engine.io', 'engine.iox', 'secret.txt']
+        'engine.io', 'engine.iox', 'secret.txt', 'public-private']
 MORE = ['b.css', 'deep', 'c.json', 'single', 'a', 'b', 'engine', 'noext',
-        'home.htm', 'app.js', 'name.txt.d', 'x.png', 'public', 'staticx']
+        'home.htm', 'app.js', 'name.txt.d', 'x.png', 'public', 'staticx',
+        'public.bak', 'publications.txt', '..%2f', '%2e%2e%2f', '%2E%2E']
 
 
 def lifespan_cases(rec):
@@ -490,6 +498,10 @@ def run_shard(spec):
                       '/engine.io', '/engine.io/', '/engine.io/x?y',
                       '/static', '/static/', '/static/sub', '/static/sub/',
                       '/static/../secret.txt', '/static/sub/../../secret.txt',
+                      '/static/../public-private/secret.txt',
+                      '/static/../public.bak/', '/static/../publications.txt',
+                      '/static/sub/../../public.bak/index.html',
+                      '/static/%2e%2e/secret.txt', '/static/..%2fsecret.txt',
                       '/single', '/single/', '/static/name.txt.d',
                       '/static/sub/deep/c.json', '/static//a.txt',
                       '/static/./a.txt', '//static/a.txt', '/staticx/a.txt',
